@@ -60,7 +60,22 @@ type c04Member struct {
 	Dup1 bool   `json:"dup1,omitempty"`
 	Dup2 bool   `json:"dup2,omitempty"`
 	Dup3 bool   `json:"dup3,omitempty"`
+	// Alt: the member sends otherwise unchanged messages with curve points in another accepted encoding of the SAME
+	// point (pkg/tss accepts whatever secp256k1.ParsePubKey accepts: 33-byte compressed, 65-byte uncompressed 0x04,
+	// 65-byte hybrid 0x06/0x07). Bit field: bits 0-1 encoding (1 uncompressed, 2 hybrid, 3 alternating), 4 one-time
+	// public key, 8 A0, 16 higher coefficient commitments (subset: bits 8..), 32 the round-1 proofs are made over the
+	// canonical bytes instead of the bytes sent, 64 complaint key-sym. Signatures (R | s) and complaint proofs
+	// (A1 | A2 | z) have a fixed 33-byte slot per point, so R, A1, A2 cannot be re-encoded; MsgConfirm carries no point.
+	Alt int `json:"alt,omitempty"`
 }
+
+const (
+	altOneTime = 4
+	altA0      = 8
+	altCommits = 16
+	altCanonPf = 32
+	altKeySym  = 64
+)
 
 type c04Extra struct {
 	Stage int    `json:"stage"` // 1..3 = while that round is being played, 4 = after the DKG ended
@@ -156,6 +171,40 @@ func genC04(rt *rapid.T) c04Case {
 		m.To = gen.Uniform(rt, "to", 16)
 		m.Var = gen.Uniform(rt, "var", 96)
 	}
+	// alternative point encodings (independent of the deviations: the member still follows the protocol)
+	if gen.Chance(rt, "altcase", 9, 20) {
+		k := 1 + gen.Pick(rt, "altn", 6, 3)
+		if gen.Chance(rt, "altall", 1, 8) {
+			k = n
+		}
+		first := gen.Uniform(rt, "altfirst", n)
+		for j := 0; j < k && j < n; j++ {
+			a := 1 + gen.Uniform(rt, "altenc", 3)
+			switch gen.Pick(rt, "altwhat", 3, 3, 3, 3, 4) {
+			case 0:
+				a |= altOneTime
+			case 1:
+				a |= altA0
+			case 2:
+				a |= altCommits
+			case 3:
+				a |= altKeySym
+			default:
+				a |= gen.Uniform(rt, "altmask", 16) << 2 & (altOneTime | altA0 | altCommits)
+				if gen.Chance(rt, "altks", 1, 2) {
+					a |= altKeySym
+				}
+				if a&(altOneTime|altA0|altCommits|altKeySym) == 0 {
+					a |= altOneTime | altA0 | altCommits | altKeySym
+				}
+			}
+			if gen.Chance(rt, "altcanonpf", 1, 6) {
+				a |= altCanonPf
+			}
+			a |= gen.Uniform(rt, "altsub", 256) << 8
+			c.Members[(first+j)%n].Alt = a
+		}
+	}
 	cutDen := gen.OneOf(rt, "cutden", 0, 0, 8, 4, 2)
 	for r := 0; r < 3; r++ {
 		for i := 0; i < n; i++ {
@@ -193,11 +242,44 @@ func clone(b []byte) []byte { return append([]byte(nil), b...) }
 
 // negPoint negates a compressed point (02 <-> 03).
 func negPoint(p tss.Point) tss.Point {
-	q := clone(p)
+	q := canon(p)
 	if len(q) == 33 {
 		q[0] ^= 1
 	}
 	return q
+}
+
+// canon is the 33-byte compressed encoding of the point p is an encoding of (p itself if it is not a point).
+func canon(p []byte) []byte {
+	pk, err := secp256k1.ParsePubKey(p)
+	if err != nil {
+		return clone(p)
+	}
+	return pk.SerializeCompressed()
+}
+
+// altEncode re-encodes a point: kind 1 = 65-byte uncompressed (0x04 | X | Y), kind 2 = 65-byte hybrid (0x06 | parity of Y).
+func altEncode(p tss.Point, kind int) tss.Point {
+	pk, err := secp256k1.ParsePubKey(p)
+	if err != nil {
+		return p
+	}
+	b := pk.SerializeUncompressed()
+	if kind == 2 {
+		b[0] = 0x06 | (b[64] & 1)
+	}
+	return tss.Point(b)
+}
+
+// altKind: the encoding the Alt selector asks for at the i-th re-encoded point.
+func altKind(alt, i int) int {
+	switch alt & 3 {
+	case 1:
+		return 1
+	case 2:
+		return 2
+	}
+	return 1 + i%2
 }
 
 func permByKeys(keys []int, n int) []int {
@@ -252,7 +334,8 @@ type mem struct {
 	attempts int
 	inFlight [4]bool // a well-formed round-k submission was already produced
 	lastMsg  [4]*item
-	strict   bool // follows the protocol in every respect
+	noAlt    [4]bool // round k: the alternative encoding was refused, the member now sends the canonical bytes
+	strict   bool    // follows the protocol in every respect
 	reasons  []reason
 	devs     int
 }
@@ -299,6 +382,11 @@ type item struct {
 	complaints []cdesc
 	priv       tss.Scalar
 	forged     []tss.MemberID // members other than the sender that are named as complainant inside the message
+	// eitherOK: the content is what the protocol prescribes, in another encoding of the same curve points. The chain may
+	// refuse the message as malformed (no trace) or accept it (then everything must go on as if the canonical bytes had
+	// been sent); the model follows the tx result.
+	eitherOK bool
+	altKinds []string
 }
 
 type world struct {
@@ -630,8 +718,62 @@ func (w *world) buildR1(m *mem, deviate bool) *item {
 		it.label, it.honest = devk, false
 		w.dev(m, "r1:"+devk)
 	}
+	if alt := m.spec.Alt; alt&(altOneTime|altA0|altCommits) != 0 && !m.noAlt[1] && it.wellFormed && it.claimed == m.id && it.r1 == a {
+		// the same group elements, written differently; the proofs of possession are made (like the daemon makes them)
+		// over the bytes that are sent - or, altCanonPf, over the canonical bytes
+		commits := append(tss.Points{}, a.info.CoefficientCommits...)
+		np := 0
+		if alt&altOneTime != 0 {
+			a.info.OneTimePubKey = altEncode(a.info.OneTimePubKey, altKind(alt, np))
+			np++
+			it.altKinds = append(it.altKinds, "onetime")
+		}
+		if alt&altA0 != 0 && len(commits) > 0 {
+			commits[0] = altEncode(commits[0], altKind(alt, np))
+			np++
+			it.altKinds = append(it.altKinds, "a0")
+		}
+		if alt&altCommits != 0 && len(commits) > 1 {
+			sub := alt >> 8
+			if sub&(1<<uint(len(commits)-1)-1) == 0 {
+				sub = -1
+			}
+			for k := 1; k < len(commits); k++ {
+				if sub>>uint(k-1)&1 == 1 {
+					commits[k] = altEncode(commits[k], altKind(alt, np))
+					np++
+				}
+			}
+			it.altKinds = append(it.altKinds, "commit")
+		}
+		a.info.CoefficientCommits = commits
+		if alt&altCanonPf == 0 {
+			a0Key := a.coeffs[0]
+			if a.committed != nil {
+				a0Key = scalarOf(a.committed[0])
+			}
+			var e1, e2 error
+			if alt&altA0 != 0 {
+				a.info.A0Signature, e1 = tss.SignA0(m.id, w.dkgCtx, commits[0], a0Key)
+			}
+			if alt&altOneTime != 0 {
+				a.info.OneTimeSignature, e2 = tss.SignOneTime(m.id, w.dkgCtx, a.info.OneTimePubKey, a.otPriv)
+			}
+			if e1 != nil || e2 != nil {
+				w.fail("harness", "sign: %v %v", e1, e2)
+				return nil
+			}
+		} else {
+			w.v.Class("altenc-r1-proofs-over-canonical-bytes")
+		}
+		if np > 0 {
+			it.eitherOK = true
+			it.label += "+altenc"
+			w.dev(m, "r1:altenc")
+		}
+	}
 	it.msg = tsstypes.NewMsgSubmitDKGRound1(w.gid, it.r1.info, it.sender.Addr.String())
-	if it.wellFormed && it.claimed == m.id {
+	if it.wellFormed && it.claimed == m.id && !it.eitherOK {
 		m.inFlight[1] = true
 	}
 	m.lastMsg[1] = it
@@ -906,10 +1048,39 @@ func (w *world) buildR3(m *mem, deviate bool) *item {
 	ownOK := m.committed != nil && ref.TSSEvalPoly(m.dealt, uint64(m.id)).Cmp(ref.TSSEvalPoly(m.committed, uint64(m.id))) == 0
 	daemon := func() bool {
 		if len(complaints) > 0 {
-			for _, c := range complaints {
+			cs := append([]tsstypes.Complaint(nil), complaints...)
+			if alt := m.spec.Alt; alt&altKeySym != 0 && !m.noAlt[3] {
+				// the daemon's complaints with the key-sym written in another encoding of the same point and the proof made
+				// over those bytes: still the true evidence against a really bad share
+				sub := alt >> 8
+				if sub&(1<<uint(len(cs))-1) == 0 {
+					sub = -1
+				}
+				np := 0
+				for i := range cs {
+					ri, rr := w.r1InfoOf(m.id), w.r1InfoOf(cs[i].Respondent)
+					if sub>>uint(i)&1 == 0 || ri == nil || rr == nil {
+						continue
+					}
+					ks := altEncode(cs[i].KeySym, altKind(alt, i))
+					sig, err := forgeComplaintProof(ri.OneTimePubKey, rr.OneTimePubKey, m.dkg.OneTimePrivKey, ks, w.c.Seed, m.idx, i)
+					if err != nil {
+						w.fail("harness", "forgeComplaintProof: %v", err)
+						return false
+					}
+					cs[i].KeySym, cs[i].Signature = ks, sig
+					np++
+				}
+				if np > 0 {
+					it.eitherOK, it.altKinds, it.label = true, []string{"keysym"}, "honest+altenc"
+					w.dev(m, "r3:altenc")
+					w.v.Class("altenc-keysym-in-true-complaint")
+				}
+			}
+			for _, c := range cs {
 				it.complaints = append(it.complaints, w.describe(m, c, true, "daemon"))
 			}
-			it.msg = tsstypes.NewMsgComplain(w.gid, complaints, m.acct.Addr.String())
+			it.msg = tsstypes.NewMsgComplain(w.gid, cs, m.acct.Addr.String())
 			return true
 		}
 		return confirm(own, m.id, w.gr.DKGContext, ownOK)
@@ -940,7 +1111,7 @@ func (w *world) buildR3(m *mem, deviate bool) *item {
 				all = append(all, *c)
 			}
 		case "false":
-			if v%3 == 2 {
+			if !m.noAlt[3] && (v%3 == 2 || m.spec.Alt&altKeySym != 0) {
 				// the REAL key-sym in another encoding of the same curve point (65-byte uncompressed / hybrid form), with
 				// the proof made over those bytes: still a complaint about whatever share was dealt, so it must succeed
 				// exactly when the share is bad - the encoding of the evidence must not decide the outcome
@@ -955,6 +1126,7 @@ func (w *world) buildR3(m *mem, deviate bool) *item {
 						return nil
 					}
 					c.KeySym, c.Signature = tss.Point(alt), sig
+					it.eitherOK, it.altKinds = true, []string{"keysym"}
 					w.v.Class("complain-keysym-in-uncompressed-encoding")
 				}
 			}
@@ -1125,7 +1297,7 @@ func (w *world) buildR3(m *mem, deviate bool) *item {
 		it.label, it.honest = devk, false
 		w.dev(m, "r3:"+devk)
 	}
-	if it.wellFormed && it.claimed == m.id {
+	if it.wellFormed && it.claimed == m.id && !it.eitherOK {
 		m.inFlight[3] = true
 	}
 	m.lastMsg[3] = it
@@ -1222,6 +1394,19 @@ func (w *world) buildExtra(x c04Extra) *item {
 	return it
 }
 
+func shortLog(log string) string {
+	for _, k := range []string{"one time signature", "A0 signature", "invalid coefficient commit", "invalid one-time public key", "invalid symmetric key", "invalid complaint",
+		"already submit", "not round"} {
+		if bytes.Contains([]byte(log), []byte(k)) {
+			return k
+		}
+	}
+	if len(log) > 48 {
+		log = log[len(log)-48:]
+	}
+	return log
+}
+
 // ---- model: what must happen to a submission ---------------------------------------------------------------
 
 func roundOf(kind string) int {
@@ -1252,6 +1437,9 @@ func (w *world) expect(it *item) (bool, bool, string) {
 	}
 	if !it.wellFormed {
 		return false, true, "malformed content (" + it.label + ")"
+	}
+	if it.eitherOK {
+		return true, false, "alternative encoding of the same points"
 	}
 	if w.accBroken && k <= 2 {
 		return false, false, "accumulated commitment is the point at infinity"
@@ -1301,6 +1489,18 @@ func (w *world) observe(res *sim.BlockResult) {
 		if !certain {
 			w.v.Count("uncertain_acceptance", 1)
 		}
+		if it.eitherOK && why == "alternative encoding of the same points" {
+			for _, kd := range it.altKinds {
+				if got {
+					w.v.Class("altenc-" + kd + "-accepted")
+				} else {
+					w.v.Class("altenc-" + kd + "-refused")
+				}
+			}
+			if !got {
+				w.v.Count("altenc_refused:"+shortLog(tr.Log), 1)
+			}
+		}
 		if os.Getenv("VERIF_C04_DEBUG") != "" {
 			fmt.Printf("h=%d %s %s claimed=%d code=%d expect=%v/%v log=%q\n", res.Height, it.kind, it.label, it.claimed, tr.Code, exp, certain, tr.Log)
 		}
@@ -1325,8 +1525,11 @@ func (w *world) observe(res *sim.BlockResult) {
 			a := it.r1
 			m.haveDKG = true
 			m.dkg = store.DKG{GroupID: w.gid, MemberID: m.id, Coefficients: a.coeffs, OneTimePrivKey: a.otPriv}
-			m.dealt, m.committed, m.commits = a.dealt, a.committed, a.info.CoefficientCommits
-			for idx, cm := range a.info.CoefficientCommits {
+			m.dealt, m.committed, m.commits = a.dealt, a.committed, nil
+			for _, cm := range a.info.CoefficientCommits { // the model works with the group elements, whatever their encoding
+				m.commits = append(m.commits, tss.Point(canon(cm)))
+			}
+			for idx, cm := range m.commits {
 				if idx >= len(w.acc) {
 					break
 				}
@@ -1778,7 +1981,12 @@ func (w *world) stageActions(stage int) []action {
 		sp := m.spec
 		dev := []string{"", sp.R1, sp.R2, sp.R3}[stage]
 		fix := []bool{false, sp.Fix1, sp.Fix2, sp.Fix3}[stage]
-		if rejectedDevs[dev] && fix {
+		altStage := (stage == 1 && sp.Alt&(altOneTime|altA0|altCommits) != 0) || (stage == 3 && sp.Alt&altKeySym != 0)
+		altFix := altStage && dev != "stop" && (!rejectedDevs[dev] || fix)
+		if (rejectedDevs[dev] && fix) || altFix {
+			acts = append(acts, action{what: "fix", mi: mi})
+		}
+		if altFix { // a member whose alternative encoding is refused sends the canonical bytes
 			acts = append(acts, action{what: "fix", mi: mi})
 		}
 	}
@@ -1810,6 +2018,24 @@ func (w *world) enqueue(stage int, a action) {
 	deviate := a.what == "main" && dev != ""
 	if a.what == "fix" && m.inFlight[stage] {
 		return
+	}
+	if prev := m.lastMsg[stage]; a.what == "fix" && prev != nil && prev.eitherOK {
+		for _, p := range w.pending { // wait for the verdict on the alternative encoding
+			if p == prev {
+				if !w.flush() {
+					return
+				}
+				break
+			}
+		}
+		if w.set[stage][m.id] {
+			return // accepted
+		}
+		m.noAlt[stage] = true
+		if rd := []string{"", m.spec.R1, m.spec.R2, m.spec.R3}[stage]; !rejectedDevs[rd] {
+			// the same message in the canonical encoding (the deviation it may carry is one the chain accepts)
+			deviate = rd != ""
+		}
 	}
 	if deviate && dev == "stop" {
 		w.dev(m, fmt.Sprintf("r%d:stop", stage))
